@@ -141,7 +141,7 @@ func runPhase(env Env, p Property, ph Phase, seed uint64, deadline int64, known 
 			if ph.Race && exitCode(errs[k]) == 66 {
 				rf := filepath.Join(outDir, fmt.Sprintf("w%d.racing", k))
 				if raw, rerr := os.ReadFile(rf); rerr == nil {
-					agg.Violation = &FoundViolation{Run: 0, V: Violation{Class: "data-race", Sig: raceSig(stderrs[k].String()), Detail: lastLines(raceSummary(stderrs[k].String()), 40)}, Scenario: raw}
+					agg.Violation = &FoundViolation{Run: 0, V: Violation{Class: "data-race", Sig: raceSig(stderrs[k].String()), Detail: firstLines(raceSummary(stderrs[k].String()), 30)}, Scenario: raw}
 					continue
 				}
 			}
@@ -246,13 +246,19 @@ func raceSig(s string) string {
 	for _, ln := range strings.Split(s, "\n") {
 		ln = strings.TrimSpace(ln)
 		if strings.HasPrefix(ln, "github.com/twpayne/go-geom") {
-			if j := strings.Index(ln, "("); j > 0 {
-				ln = ln[:j]
-			}
+			ln = strings.TrimSuffix(ln, "()")
 			return "race:" + strings.TrimPrefix(ln, "github.com/twpayne/go-geom")
 		}
 	}
 	return "race:unknown"
+}
+
+func firstLines(s string, n int) string {
+	ls := strings.Split(strings.TrimRight(s, "\n"), "\n")
+	if len(ls) > n {
+		ls = ls[:n]
+	}
+	return strings.Join(ls, "\n")
 }
 
 // execOnce executes one scenario in a fresh process and returns the class of
@@ -288,7 +294,7 @@ func execOnce(env Env, p Property, phase Phase, raw []byte, verbose bool) (class
 	if rerr != nil {
 		switch exitCode(rerr) {
 		case 66:
-			return "data-race", raceSig(out), lastLines(raceSummary(out), 40), out, nil
+			return "data-race", raceSig(out), firstLines(raceSummary(out), 30), out, nil
 		case 3:
 			// violation reported by exec
 		default:
@@ -337,8 +343,12 @@ func Check(env Env, id, tier string) int {
 	var aggs []*phaseAgg
 	var found *FoundViolation
 	var foundPhase Phase
-	for _, ph := range p.Plan(tier) {
-		agg, err := runPhase(env, p, ph, seed, deadline, known, false, filepath.Join(runDir, ph.Name))
+	plan := p.Plan(tier)
+	for pi, ph := range plan {
+		// each phase gets an equal share of what is left of the budget
+		now := time.Now().Unix()
+		phaseDeadline := now + (deadline-now)/int64(len(plan)-pi)
+		agg, err := runPhase(env, p, ph, seed, phaseDeadline, known, false, filepath.Join(runDir, ph.Name))
 		if err != nil {
 			fmt.Fprintln(os.Stderr, err)
 			return ExitInfra
@@ -411,13 +421,18 @@ func report(env Env, p Property, ph Phase, seed uint64, fv *FoundViolation, know
 	maxTests, maxDur := 3000, 90*time.Second
 	var tester Tester
 	if fv.V.Class == "data-race" || fv.V.Class == "process-crash" {
-		maxTests, maxDur = 150, 120*time.Second
+		maxTests, maxDur = 120, 120*time.Second
 		tester = func(raw []byte) bool {
 			if _, err := p.Decode(raw); err != nil {
 				return false
 			}
-			c, _, _, _, err := execOnce(env, p, ph, raw, false)
-			return err == nil && c == fv.V.Class
+			for i := 0; i < 2; i++ {
+				c, _, _, _, err := execOnce(env, p, ph, raw, false)
+				if err != nil || c != fv.V.Class {
+					return false
+				}
+			}
+			return true
 		}
 	} else {
 		tester = func(raw []byte) bool {
@@ -432,6 +447,9 @@ func report(env Env, p Property, ph Phase, seed uint64, fv *FoundViolation, know
 	small, tests := Shrink(fv.Scenario, tester, maxTests, maxDur)
 	fmt.Printf("  minimised %d -> %d bytes in %d executions\n", len(fv.Scenario), len(small), tests)
 	class2, sig2, detail2, _, err := execOnce(env, p, ph, small, false)
+	for i := 0; i < 10 && fv.V.Class == "data-race" && (err != nil || class2 != fv.V.Class); i++ {
+		class2, sig2, detail2, _, err = execOnce(env, p, ph, small, false)
+	}
 	if err != nil || class2 != fv.V.Class {
 		// fall back to the unminimised scenario
 		small, class2, sig2, detail2 = fv.Scenario, class, sig, detail
@@ -450,6 +468,9 @@ func report(env Env, p Property, ph Phase, seed uint64, fv *FoundViolation, know
 	}
 	// the replay file must reproduce in a fresh process
 	rc, _, _, out, err := execOnce(env, p, ph, small, false)
+	for i := 0; i < 10 && class2 == "data-race" && (err != nil || rc != class2); i++ {
+		rc, _, _, out, err = execOnce(env, p, ph, small, false)
+	}
 	if err != nil || rc != class2 {
 		fmt.Fprintf(os.Stderr, "replay file %s does not reproduce (%q vs %q)\n%s\n", path, rc, class2, lastLines(out, 20))
 		return path, ExitInfra
@@ -507,6 +528,9 @@ func ReplayFile(env Env, id, path string) int {
 		ph = Phase{Name: r.Phase}
 	}
 	class, sig, detail, out, err := execOnce(env, p, ph, r.Scenario, true)
+	for i := 0; i < 10 && r.Class == "data-race" && err == nil && class != r.Class; i++ {
+		class, sig, detail, out, err = execOnce(env, p, ph, r.Scenario, true)
+	}
 	fmt.Print(out)
 	if err != nil {
 		fmt.Fprintln(os.Stderr, err)
